@@ -129,6 +129,11 @@ func pickHEL(name string, big bool) int {
 	return helValues[vr.Choice(name, n)]
 }
 
+// omittedOptionData: bldHopByHop may build a padding option with Length set and Data nil (the
+// encoder zero-fills it). Only the sizing / embedding harnesses (C06) turn this on: such a value
+// does not decode to itself, so it is no subject for the round-trip properties.
+var omittedOptionData = false
+
 // bldHopByHop: options that exactly fill 8*(HEL+1)-2 bytes (as many maximal options as needed,
 // optionally one small leading option, the last one sized to fit).
 func bldHopByHop(next uint8, big bool) *HopByHopHeader {
@@ -139,7 +144,11 @@ func bldHopByHop(next uint8, big bool) *HopByHopHeader {
 	room := 8*(hel+1) - 2
 	if vr.Bool("leadingoption") {
 		n1 := vr.IntRange("opt1len", 0, 2)
-		h.Options = append(h.Options, &Option{Type: vr.U8("opttype"), Length: uint8(n1), Data: vr.Bytes("optdata", n1)})
+		o := &Option{Type: vr.U8("opttype"), Length: uint8(n1), Data: vr.Bytes("optdata", n1)}
+		if n1 > 0 && omittedOptionData && vr.Bool("opt1-data-omitted") {
+			o.Data = nil // a padding option given by its length alone: the encoder zero-fills it
+		}
+		h.Options = append(h.Options, o)
 		room -= n1 + 2
 	}
 	for room > 257 {
